@@ -9,20 +9,8 @@ Local Open Scope list_scope.
 (* the full statement: the model of CallArgs::evaluate + FormalArgs::eval is the reference binder *)
 Definition C18_statement : Prop := forall s c, sig_wf s -> model_bind s c = spec_bind s c.
 
-(* it is false in three input classes found while proving it (each reproduced on rsass) *)
-Theorem C18_refuted_both : exists s c, sig_wf s /\ known_K1 s c = true /\ model_bind s c <> spec_bind s c.
-Proof.
-  exists (sig1 (Some "r")), (mkCall [VInt 1] [("a", VInt 2)] None None None).
-  split; [repeat constructor; intros [] | exact refuted_both].
-Qed.
-Print Assumptions C18_refuted_both.
-Theorem C18_refuted_splat_dup : exists s c, sig_wf s /\ known_K2 c = true /\ model_bind s c <> spec_bind s c.
-Proof.
-  exists (mkSig [("a", None); ("b", Some (DLit (VInt 0)))] None), (mkCall [] [("a", VInt 1)] None (Some [("a", VInt 5)]) None).
-  split; [|exact refuted_splat_dup].
-  unfold sig_wf, names. cbn. repeat constructor; cbn; intuition discriminate.
-Qed.
-Print Assumptions C18_refuted_splat_dup.
+(* it is false in one input class found while proving it (reproduced on rsass); the two other classes of the
+   first version (F30, F31) were fixed in rsass by 09ccabb and 5cd805f *)
 Theorem C18_refuted_only_named : exists s c, sig_wf s /\ known_K3 s c = true /\ model_bind s c <> spec_bind s c.
 Proof.
   exists (sig1 (Some "r")), (mkCall [VInt 1] [("r", VInt 2)] None None None).
@@ -31,19 +19,18 @@ Qed.
 Print Assumptions C18_refuted_only_named.
 
 (* main theorem: for ALL signatures (distinct parameter names) and ALL calls (positional, named, list splat,
-   map splat) outside the three classes, binding = reference binding: same parameters, same values, same
-   rest list, same keywords, and an error exactly when the reference says error *)
+   re-splatted argument list, map splat) outside the one remaining class, binding = reference binding: same
+   parameters, same values, same rest list, same keywords, and an error exactly when the reference says error *)
 Theorem C18_bind : forall s c,
-  sig_wf s -> known_K1 s c = false -> known_K2 c = false -> known_K3 s c = false ->
-  model_bind s c = spec_bind s c.
+  sig_wf s -> known_K3 s c = false -> model_bind s c = spec_bind s c.
 Proof. exact bind_main. Qed.
 Print Assumptions C18_bind.
 
 (* a keyword written twice, or written explicitly and also carried by a re-splatted argument list
-   (`@include m($b: 9, $args...)` where $args captured `$b: 2`), is a duplicate-argument error *)
-Theorem C18_resplat_duplicate : forall s c, dup_names (checked_named c) = true -> model_bind s c = BErr.
+   (`@include m($b: 9, $args...)` where $args captured `$b: 2`) or by a map splat, is a duplicate-argument error *)
+Theorem C18_duplicate : forall s c, dup_names (all_named c) = true -> model_bind s c = BErr.
 Proof. exact resplat_duplicate. Qed.
-Print Assumptions C18_resplat_duplicate.
+Print Assumptions C18_duplicate.
 
 (* positional arguments bind by position *)
 Theorem C18_positional : forall s pos, length pos = length (s_params s) ->
@@ -61,7 +48,7 @@ Print Assumptions C18_too_many.
 
 (* an unknown keyword without a rest parameter: error *)
 Theorem C18_unknown_named : forall s c,
-  sig_wf s -> s_rest s = None -> known_K2 c = false ->
+  sig_wf s -> s_rest s = None ->
   (exists kv, In kv (all_named c) /\ is_param (s_params s) (fst kv) = false) ->
   model_bind s c = BErr.
 Proof. exact unknown_named. Qed.
@@ -88,6 +75,6 @@ Print Assumptions C18_first_return.
 Example C18_nonvacuous :
   let s := mkSig [("a", None); ("b-c", Some (DRef "a")); ("d", Some (DLit (VInt 9)))] (Some "r") in
   let c := mkCall [VInt 1] [("b_c", VInt 2); ("u", VInt 3)] None (Some [("d", VInt 7)]) None in
-  known_K1 s c = false /\ known_K2 c = false /\ known_K3 s c = false /\
+  known_K3 s c = false /\
   model_bind s c = BOk [("a", VInt 1); ("b_c", VInt 2); ("d", VInt 7)] (Some (RArgs [] [("u", VInt 3)])).
 Proof. vm_compute. repeat split. Qed.
